@@ -80,6 +80,23 @@ def run(ck):
         rets = [p for p in paths if p.outcome == "return"]
         ck.check(bool(rets), "C13.R5", "returns", usite, "_update_statistics never returns")
         n_generic = 0
+        # another convention of the same helper (its callers then convert on the way in and out): the second moments it merges are
+        # sums of squared deviations, M = M_a + M_b + delta^2 n_a n_b / n, or population variances, (n_a v_a + n_b v_b + delta^2 n_a n_b / n) / n
+        alt = None
+        for p in rets:
+            items_ = p.interp.concrete_items(p.value)
+            v_ = num_term(items_[1]) if items_ is not None and len(items_) == 3 else None
+            if v_ is not None and {"var_a", "var_b"} <= v_.syms():
+                la_, lb_ = T.sym("len_a"), T.sym("len_b")
+                d_ = T.sym("avg_b") - T.sym("avg_a")
+                m2 = T.sym("var_a") + T.sym("var_b") + d_ * d_ * la_ * lb_ / (la_ + lb_)
+                pv = (la_ * T.sym("var_a") + lb_ * T.sym("var_b") + d_ * d_ * la_ * lb_ / (la_ + lb_)) / (la_ + lb_)
+                if T.ratfun_equal(v_, m2):
+                    alt = "sums of squared deviations"
+                elif T.ratfun_equal(v_, pv):
+                    alt = "population variances"
+        if alt is not None:
+            ck.undecided("C13.R5", "variance convention", usite, "_update_statistics merges %s (the pairwise update is right for them); whether every caller converts its unbiased chunk variances on the way in and the result on the way out is not decided" % alt)
         for p in paths:
             pname = ",".join("%s=%s" % (c[1], c[2]) for c in p.conds) or "straight-line"
             # ---- R6 every division on this path has a non-zero divisor
@@ -99,7 +116,7 @@ def run(ck):
             # ---- R6b the variance of a one-element chunk is undefined (NaN from torch.var_mean): it may
             # only enter the result on paths where that chunk is known to have more than one element
             for vs, ls in (("var_a", "len_a"), ("var_b", "len_b")):
-                if var is not None and vs in var.syms():
+                if var is not None and vs in var.syms() and alt is None:
                     guarded = ints.positive_on_path(T.sym(ls) - 1, {}, p.conds) is True
                     ck.check(True if guarded else False, "C13.R6", "%s used only if %s > 1 [%s]" % (vs, ls, pname), usite,
                              "the variance of a chunk enters the merge although the chunk may hold a single value (%s = 1 gives NaN from the unbiased estimator): "
@@ -114,7 +131,7 @@ def run(ck):
                 d = T.sym("avg_b") - T.sym("avg_a")
                 ref_var = ((la - 1) * T.sym("var_a") + (lb - 1) * T.sym("var_b") + d * d * la * lb / n) / (n - 1)
                 ck.check(T.ratfun_equal(mean, ref_mean), "C13.R5", "mean [%s]" % pname, usite, "merged mean is not (n_a m_a + n_b m_b)/(n_a+n_b): %r" % (mean,))
-                ck.check(T.ratfun_equal(var, ref_var), "C13.R5", "variance [%s]" % pname, usite,
+                ck.check(T.ratfun_equal(var, ref_var) or (None if alt is not None else False), "C13.R5", "variance [%s]" % pname, usite,
                          "merged variance is not the pairwise (Chan et al.) update ((n_a-1)s_a^2+(n_b-1)s_b^2+delta^2 n_a n_b/n)/(n-1): %r" % (var,))
                 ck.check(ln == n, "C13.R5", "length [%s]" % pname, usite, "merged length is not n_a + n_b")
             elif var is not None and mean is not None and ln is not None and not (isinstance(items[2], VConst) and items[2].value == 0):
